@@ -56,6 +56,38 @@ def dispatch(pid, tier, replay):
     raise common.MachineryError("no check for " + pid)
 
 
+def replay(pid, path):
+    """re-runs the case recorded in a replay file against the current tree and prints what happens"""
+    import json
+    d = json.load(open(path))
+    print("replay of %s violation: %s" % (d.get("property"), d.get("locus")))
+    print("recorded detail: %s" % str(d.get("detail"))[:1500])
+    r = d.get("replay") or {}
+    kind = r.get("kind", "")
+    if kind in ("scenario", "scenario-pair", "scenario-fill", "real-run-pair") and r.get("given") is not None and r.get("year"):
+        import random
+        import scenarios
+        given = dict(r["given"])
+        if kind == "scenario-pair" and r.get("change", {}).get("input"):
+            print("change applied in the pair: %s" % r["change"])
+        rng = random.Random(0)
+        p = scenarios.Profile(rng, year=r["year"])
+        tr, res, solver, ans = scenarios.solve_scenario(r["year"], r.get("request") or ["1040"], p, rng, overrides=given, snap="none")
+        print("re-solved with the recorded inputs: abort=%r solved=%r unimplemented=%s missing=%s" % (res.get("abort"), res.get("solved"), res.get("unimpl"), list((res.get("missing") or {}).keys())[:5]))
+        eq = r.get("equation")
+        if eq and "values" in res:
+            names = [eq["line"]] + list(eq.get("args", [])) + ([eq["src"].split(".", 1)[1]] if eq.get("src", "").startswith(eq["form"] + ".") else [])
+            for n in names:
+                full = n if "." in n else "%s.%s" % (eq["form"], n)
+                print("   %s = %s" % (full, res["values"].get(full)))
+            if eq.get("src"):
+                print("   %s = %s" % (eq["src"], res["values"].get(eq["src"])))
+        return 0
+    print("recorded case:")
+    print(json.dumps(r, indent=1, default=str)[:4000])
+    return 0
+
+
 def main():
     ap = argparse.ArgumentParser()
     ap.add_argument("pid")
@@ -63,6 +95,8 @@ def main():
     ap.add_argument("--replay", default=None)
     a = ap.parse_args()
     sys.path.insert(0, common.REPO)
+    if a.replay:
+        sys.exit(replay(a.pid, a.replay))
     try:
         rep, (level, cov, assumptions) = None, (None, None, None)
         out = dispatch(a.pid, a.tier, a.replay)
